@@ -338,8 +338,17 @@ P_BEATREE_SYNC = P("beatree_sync", "beatree::SyncController: the begin_sync task
                    P_BOUNDS, assumes=[ASSUME_P])
 P_ROLLBACK_SYNC = P("rollback_sync", "rollback: begin_sync / writeout_start prune or truncate nothing (pruning only in writeout_end, post-meta); "
                     "writeout_end propagates prune errors", P_BOUNDS, assumes=[ASSUME_P])
+P_SEGLOG_APPEND = P("seglog_append", "seglog::SegmentedLog::append (rollback log): header and payload are fsynced before Ok; after creating a "
+                    "segment file the directory is fsynced before Ok; nothing fallible is dropped", P_BOUNDS, assumes=[ASSUME_P])
 P_PRE_META = P("pre_meta_no_ht_write", "bitbox pre-meta phase (begin_sync task, WAL writeout task, prepare_sync, begin_sync, wait_pre_meta) "
                "issues no HT write; post_meta truncates the WAL only after write_ht returned", P_BOUNDS, assumes=[ASSUME_P])
+
+
+M_ALLOC_GROW = M("alloc_grow", "alloc_grow",
+                 "beatree::allocator::grow(file, page): no overflow; the boundary returned is a multiple of the growth chunk strictly beyond "
+                 "`page` (a page allocated beyond the old end is inside the file before it is written), at most two chunks away, and equals "
+                 "the length passed to set_len", "every page number 0 <= page <= 2^32 - 16384; the File::set_len call and the error plumbing "
+                 "are opaque (only the length argument is read)", assumes=[ASSUME_M])
 
 
 def _nomt_family(module, names, desc, bounds, functions, **kw):
@@ -447,21 +456,21 @@ PROPERTIES = {
                            "orchestration - the order in which durable effects are issued relative to the single switch-over (Meta::write).",
             "outside": ["that the bytes reachable from the old/new meta decode to the old/new state", "beatree / rollback controllers' "
                         "internals, rollback-in-progress crashes, Store::open order", "thread interleavings of the spawned tasks"]},
-    "C04": {"level": "model_checking", "obligations": [P_RECOVER_FSYNC, P_WRITEOUT_FSYNC, P_SYNC_ORDER, P_PRE_META, P_BEATREE_SYNC],
+    "C04": {"level": "model_checking", "obligations": [P_RECOVER_FSYNC, P_WRITEOUT_FSYNC, P_SYNC_ORDER, P_PRE_META, P_BEATREE_SYNC, P_SEGLOG_APPEND],
             "explanation": "Protocol order: every write the new state depends on is covered by a completed fsync before the function that "
                            "issued it reports success / before the redo log is discarded; decided by z3 over the MIR event structure; a "
                            "counterexample is replayed as a syscall trace (strace) of a real crash-recovery run.",
-            "outside": ["beatree (ln/bbn) and rollback seglog fsync discipline", "torn sectors, lying fsync", "content-level equivalence"]},
+            "outside": ["what the beatree page writes contain / where they go", "seglog pruning and recovery", "torn sectors, lying fsync", "content-level equivalence"]},
     "C12": {"level": "model_checking", "obligations": P_COMMIT_CHECK,
             "explanation": "In each of the four commit entry points the previous-root check dominates every effect; counterexamples are "
                            "replayed as concrete API histories (stale commit, then rollback / overlay-chain completeness).",
             "outside": ["interleavings of two racing committers", "effects hidden inside Store::commit on the accepted path"]},
-    "C14": {"level": "model_checking", "obligations": [P_NO_SWALLOW, P_POISON, P_SYNC_ORDER, P_BEATREE_SYNC, P_ROLLBACK_SYNC],
+    "C14": {"level": "model_checking", "obligations": [P_NO_SWALLOW, P_POISON, P_SYNC_ORDER, P_BEATREE_SYNC, P_ROLLBACK_SYNC, P_SEGLOG_APPEND],
             "explanation": "No fallible I/O value is dropped uninspected in the bitbox/meta/sync orchestration; an error from Sync::sync "
                            "poisons the store before it is returned; a failure before the switch-over returns before any post-meta step. "
                            "Counterexamples are replayed with injected page-write failures against the real crate.",
             "outside": ["beatree / rollback / seglog error paths", "hangs (channel pairing)", "what the reopened state is"]},
-    "C17": {"level": "model_checking", "obligations": [P_PRE_META, P_SYNC_ORDER, P_RECOVER_ORDER, P_ROLLBACK_SYNC],
+    "C17": {"level": "model_checking", "obligations": [P_PRE_META, P_SYNC_ORDER, P_RECOVER_ORDER, P_ROLLBACK_SYNC, M_ALLOC_GROW],
             "explanation": "Until Meta::write returned, the bitbox side writes only the WAL: no HT page write, no WAL truncation. Decided "
                            "over the MIR event structure of the pre-meta functions.",
             "outside": ["beatree page allocation (new data only to free / beyond-end pages)", "rollback seglog pruning", "free-list correctness"]},
